@@ -94,6 +94,9 @@ def fixed_corpus():
     add(D([A2, window('W', 'A', 3)], cross('AW', 'AW')))
     add(D([A2, B2, window('W', 'A', 2, stride=2)], cross('ABW', 'AB')))
     add(D([A2, B2, window('W', 'A', 2, stride=2, start=2)], cross('ABW', 'AB', [['AtMostKInARow', 1, 'A', 'a0']])))
+    # stride and explicit start together, the factor constrained (so that its derivation is encoded)
+    add(D([A2, B2, window('W', 'A', 2, stride=2, start=2)], cross('ABW', 'AB', [['ExactlyK', 1, 'W', 'w0']])))
+    add(D([A3, B2, window('W', 'B', 2, stride=2, start=2)], cross('ABW', 'AB', [['AtMostKInARow', 1, 'W', 'w0']])))
     add(D([A2, B2, window('W', 'A', 2, start=0, preds=(('first', 'a0'), 'else'))], cross('ABW', 'AB')))
     add(D([A2, B2, window('W', 'A', 1, start=2, preds=(('first', 'a0'), 'else'))], cross('ABW', 'AB')))
     add(D([A2, B2, window('W', 'A', 2, start=3)], cross('ABW', 'AW')))
@@ -439,10 +442,10 @@ def random_design(rnd, tmax=8):
     return D(factors, cross(design, cr, rand_constraints(design, 1), rcc))
 
 
-def designs(tier, seed):
+def designs(tier, seed, n=None):
     out = fixed_corpus() + randomgen_corpus() + acceptance_corpus()
     rnd = random.Random(seed * 7919 + 17)
-    n = 400 if tier == 'thorough' else 40
+    n = n or (400 if tier == 'thorough' else 40)
     tmax = 12 if tier == 'thorough' else 8
     for _ in range(n):
         out.append(random_design(rnd, tmax))
